@@ -7,7 +7,7 @@ patch="$(realpath "$1")"; tier="$2"; shift 2
 wt="${MUT_WT:-/tmp/wt/mut}"
 cd "$(dirname "$0")/.."
 [ -d "$wt" ] || git -C /repo worktree add --detach "$wt" HEAD -q || exit 3
-git -C "$wt" checkout -q --detach "$(git -C /repo rev-parse HEAD)" && git -C "$wt" checkout -q -- . && git -C "$wt" clean -fdq
+git -C "$wt" checkout -q --detach "${MUT_BASE:-$(git -C /repo rev-parse HEAD)}" && git -C "$wt" checkout -q -- . && git -C "$wt" clean -fdq
 git -C "$wt" apply "$patch" || { echo "patch does not apply"; exit 3; }
 for p in "$@"; do
   VERIF_REPO="$wt" ./run check "$p" "$tier" 2>&1 | grep -E "^(VIOLATION|  signature|C[0-9]+ |INCONC|OK)" | head -12
